@@ -180,6 +180,11 @@ def run(tier):
                         else:
                             cur.append(e)
                     for orig, now in zip(adopted_dumps, redumps):
+                        if not orig:
+                            # adopted after a parse that ended with a fatal error: the driver does not dump the partial
+                            # document at that point, so there is nothing to compare the later state with
+                            stats['adopted_documents_without_original_dump'] += 1
+                            continue
                         stats['adopted_documents_rechecked'] += 1
                         if orig != now:
                             ck.violation('C15:adopted-document-changed', 'a document adopted earlier changed after later parses on the same parser',
